@@ -61,7 +61,8 @@ Definition store_load (st : strstore) (ss : list bytes) : strstore * res (list Z
   end.
 
 (* Get(idx): "" when idx is outside buf; otherwise a 4-byte load through unsafe.Pointer at idx
-   (outside the slice when fewer than 4 bytes remain) and a checked slice expression. *)
+   (outside the slice when fewer than 4 bytes remain) and a slice expression, which Go checks
+   against the capacity: it can reach into the spare part of the backing array. *)
 Definition store_get (st : strstore) (idx : Z) : res bytes :=
   if ((idx <? 0) || (Z.of_N (len (sbuf st)) <=? idx))%Z then Ok []
   else
@@ -69,7 +70,7 @@ Definition store_get (st : strstore) (idx : Z) : res bytes :=
     if len (sbuf st) <? i + strlen_size then OOB
     else
       let n := unle (take strlen_size (drop i (sbuf st))) in
-      slice_range (sbuf st) (i + strlen_size) (i + strlen_size + n).
+      slice_range (sbuf st ++ sspare st) (i + strlen_size) (i + strlen_size + n).
 
 (* ---------------- Str2Str ---------------- *)
 Section Str2Str.
@@ -98,6 +99,10 @@ Definition s2s_load (st : str2str) (kk vv : list bytes) : str2str * res unit :=
     | Panic w => (mks2s (s2s_map st) (Some store'), Panic w)
     | OOB => (mks2s (s2s_map st) (Some store'), OOB)
     end.
+
+(* Str2Str.LoadFromMap: the pairs in the order the range loop visits them, then LoadFromSlice *)
+Definition s2s_load_map (st : str2str) (visit : list (bytes * bytes)) : str2str * res unit :=
+  s2s_load st (map fst visit) (map snd visit).
 
 Definition s2s_get (st : str2str) (k : bytes) : res (option bytes) :=
   match s2s_map st with
